@@ -149,9 +149,9 @@ func c58(c *Ctx) {
 	why := "no use of the release field"
 	for _, u := range uses {
 		call, isCall := u.(*ssa.Call)
-		if !isCall || CalleeName(&call.Call) != "(*sync.Once).Do" || FieldQ(call.Call.Args[0]) != "netutil.limitListenerConn.releaseOnce" ||
-			LoadedField(call.Call.Args[1]) != relF ||
-			call.Call.Args[0].(*ssa.FieldAddr).X != call.Call.Args[1].(*ssa.UnOp).X.(*ssa.FieldAddr).X {
+		if !isCall || CalleeName(&call.Call) != "(*sync.Once).Do" || FieldQ(BaselineArgs(&call.Call)[0]) != "netutil.limitListenerConn.releaseOnce" ||
+			LoadedField(BaselineArgs(&call.Call)[1]) != relF ||
+			BaselineArgs(&call.Call)[0].(*ssa.FieldAddr).X != BaselineArgs(&call.Call)[1].(*ssa.UnOp).X.(*ssa.FieldAddr).X {
 			okUses = false
 			why = "used by `" + DescribeInstr(u) + "` in " + FnName(u.Parent())
 		}
@@ -163,7 +163,7 @@ func c58(c *Ctx) {
 		w := "no use"
 		for _, u := range us {
 			call, isCall := u.(*ssa.Call)
-			if !isCall || CalleeName(&call.Call) != "(*sync.Once).Do" || FieldQ(call.Call.Args[0]) != f {
+			if !isCall || CalleeName(&call.Call) != "(*sync.Once).Do" || FieldQ(BaselineArgs(&call.Call)[0]) != f {
 				ok = false
 				w = "used by `" + DescribeInstr(u) + "` in " + FnName(u.Parent())
 			}
@@ -176,7 +176,7 @@ func c58(c *Ctx) {
 
 	// Listener.Close: done closed through closeOnce on every path
 	doClose := Calls("(*sync.Once).Do").ArgIs(0, "&$r.closeOnce").Where("with the closure closing done", func(in ssa.Instruction) bool {
-		mc, ok := in.(*ssa.Call).Call.Args[1].(*ssa.MakeClosure)
+		mc, ok := BaselineArgs(&in.(*ssa.Call).Call)[1].(*ssa.MakeClosure)
 		return ok && FnName(mc.Fn.(*ssa.Function)) == L+"Close$1"
 	})
 	c.CountOnPaths(L+"Close", doClose, 1)
